@@ -129,27 +129,29 @@ PROPS = {
     },
     "C11": {
         "manifest": {
-            "text": "Lean 4 theorems over a transcription of db.Wrs (both Add branches, Key > 0 filter, counters) with keys in an "
-                    "arbitrary linear order: wrs_topk (kept = the min(max,n) largest keys, a sub-multiset of the candidates), "
-                    "tie lemmas, wrs_sound, wrs_count (exactly min(max, #positive-weight) records, none of weight 0, under "
-                    "key = 0 <-> weight = 0), zero_weight_name_exists, additional_max_one, weighted_flag; the full-strength count "
-                    "statement is kept as count_full with proved count_partial and proved negation count_full_fails (math.Pow "
-                    "edge draws, see known findings); es_single_winner (the Efraimidis-Spirakis integral behind proportionality). "
-                    "Correspondence: the real db.Wrs driven through a scripted rand source (verif-tag hook), selected sets "
-                    "compared with the model computing keys with Float.",
+            "text": "Lean 4 theorems over a transcription of db.Wrs (both Add branches, weight-0 skip, counters; every sampled item "
+                    "is served) with keys in an arbitrary linear order and NO hypothesis on keys or draws: wrs_topk (kept = the "
+                    "min(max,n) largest keys, a sub-multiset of the candidates), tie lemmas, wrs_sound, wrs_bounded, fam_count, "
+                    "wrs_count (exactly min(max, #positive-weight) records per family, each from a positive-weight candidate), "
+                    "weight0_never_served, answer_spec, zero_weight_only, zero_weight_name_exists, weighted_flag, "
+                    "additional_max_one, count_full (every key function, weight and draw; false before the repair at draws 0 / "
+                    "2^32-1); es_single_winner (the Efraimidis-Spirakis integral behind proportionality). Correspondence: the real "
+                    "db.Wrs driven through a scripted rand source (verif-tag hook), selected sets compared with the model "
+                    "computing keys with Float; the oracle also checks that weight-0 candidates consume no draw.",
             "note": "Trusted: Lean kernel + standard axioms; math.Pow/Lean Float agreement (near-ties within 1e-12 are skipped "
                     "and counted); Shuffle order not modelled (sets compared). Proportionality of the real PRNG stream is a "
-                    "chi-square TEST (alpha 1e-6, 2e5 draws), labelled as a test; only the integral identity is proved. "
-                    "Concurrent use of the shared generator is C14's lock table.",
+                    "chi-square TEST (alpha 1e-6, 2e5 draws, incl. weights up to 2^32-1), labelled as a test; only the integral "
+                    "identity is proved. Concurrent use of the shared generator is C14's lock table.",
         },
         "trusted": COMMON_TRUSTED + [
             "math.Pow vs Lean Float.pow (driver only; no theorem mentions floats); rand.Shuffle not modelled",
             "proportionality: statistical test only",
         ],
-        "rule": "exhaustive candidate lists of size 1-3 over weights {0,1,2,1000,2^32-1} and a few draws, 6000 (thorough ~190000) "
-                "random candidate sets of size 1-12, max 1..8 (and 0, -1), both families and an unsupported type, 1000 edge-draw "
-                "cases (draw 0 / 2^32-1, correspondence only), 4 chi-square runs; distinct = distinct (op, output shape)",
-        "assumptions": ["draws 0 and 2^32-1 excluded from the count oracle (known finding C11-pow-edge)"],
+        "rule": "exhaustive lists of size 1-3 over weights {0,1,2} x draws {0,1000,2^31,4e9,2^32-1}; all single and pair cases over "
+                "weights {0,1,2,1000,2^32-1} x draws {0,1,2^32-2,2^32-1}; 6000 (thorough 150000) random sets of size 1-12, max "
+                "1..8 (and 0, -1), both families plus an unsupported type, draws including 0 and 2^32-1; 1000 mostly-edge-draw "
+                "sets; 7 chi-square runs; all with the full oracle; distinct = distinct (op, output shape)",
+        "assumptions": ["keys form a linear order (no property of math.Pow is used by the count / weight-0 theorems)"],
     },
     "C14": {
         "race_build": True,
